@@ -25,15 +25,15 @@ TRUSTED = ["rustc nightly MIR", "BTreeMap/BTreeSet iterate in key order", "C05/W
 
 # frozen order-sensitive flows: key -> reason (one line each, confirmed by reading)
 FROZEN = {
-    "melda::Melda::commit|hash|push":
+    "melda::Melda::commit|hash|positional":
         "staged revisions of one tree (HashMap) -> change-record array of the block: block bytes only; the applier / replay_stage insert by revision (C01/L1, C15/G4b)",
-    "melda::Melda::stage|hash|push":
+    "melda::Melda::stage|hash|positional":
         "stage export: same as commit; replay_stage adds each record by key, unconditionally",
-    "<pack_writer>|hash|assign,extend_from_slice,push":
+    "<pack_writer>|hash|positional":
         "staged objects (HashMap) -> pack bytes: readers index every object by its own digest (C10/H4), never by position",
-    "melda::Melda::meld|hash|push":
+    "melda::Melda::meld|hash|positional":
         "HashSet of foreign item names -> the list of copied names returned by meld: informational, not replica state",
-    "datastorage::DataStorage::refresh|vec|push":
+    "datastorage::DataStorage::refresh|vec|positional":
         "listing order -> list of newly applied pack names returned by DataStorage::refresh: informational, Melda::refresh ignores it",
 }
 
@@ -219,7 +219,8 @@ def run(facts, res):
             owner = callers[0]
         if owner == roles_of(facts).path("pack_writer"):
             owner = "<pack_writer>"
-        kinds = sorted({x.split("(")[0] for x in sinks})
+        # sink classes, not the individual calls: how a loop body appends (push / extend / running offset) is not part of the key
+        kinds = sorted({("early-exit" if x == "early-exit" else "first-match" if x.split("(")[0] in iters.FIRST_MATCH else "positional") for x in sinks})
         key = "%s|%s|%s" % (owner, kind, ",".join(kinds))
         res.instance("D1", "%s: %s iteration (%s%s) -> %s: %s" % (body.path, kind, fl.src[4].name, "".join("." + c for c in reversed(fl.chain)), cons, why), where,
                      nontrivial=True)
@@ -444,7 +445,7 @@ def _shared_root(t, body):
     return None
 
 
-FIXTURE_EXPECT = ['positional-on-shared', 'thread-identity', 'ordered_from_hash|hash|push', 'ordered_from_hash|hash|find']
+FIXTURE_EXPECT = ['positional-on-shared', 'thread-identity', 'ordered_from_hash|hash|positional', 'ordered_from_hash|hash|first-match']
 
 
 def thorough(res):
